@@ -123,7 +123,7 @@ def run(ctx):
     for t in traces:
         j = vf.judge_records(ctx, "Trace_Tree", t, sig_fn=sig, nontrivial_fn=nontrivial)
         for r in j["records"]:
-            if nontrivial(r) and len(ctx.cov["samples"]) < 3 and len(r["out"]["cf"]) > 0:
+            if nontrivial(r) and len(ctx.cov["samples"]) < 3 and r.get("out") and len(r["out"]["cf"]) > 0:
                 ctx.sample(r, 3)
         for idx, verdict in j["bad"]:
             if verdict.startswith(KNOWN_SHAPE):
